@@ -961,6 +961,73 @@ impl<'a> Gen<'a> {
                 return format!("{};", n);
             }
         }
+        // ill-typed operations, systematically: every operator, operands of every kind on either
+        // side, as literals, as a global variable or as a parameter inside a function (the fused
+        // `local <op> literal` instructions); and `antwoord` where there is no function to leave
+        if self.rng.chance(2, 5) {
+            let n = self.stmt_counter;
+            if self.rng.chance(1, 8) && !self.in_function() {
+                self.planted = Some("odd:return-at-top-level".to_string());
+                let v = *self.rng.pick(&["\"abc\"", "string(42)", "[1.5, \"x\"]", "2.5 + 1.5", "5"]);
+                return format!("antwoord {};", v);
+            }
+            const OPERANDS: &[(&str, &str)] = &[
+                ("int", "3"),
+                ("float", "2.5"),
+                ("bool", "ja"),
+                ("bool", "nee"),
+                ("null", "NULL"),
+                ("string", "\"abc\""),
+                ("string", "string(12)"),
+                ("array", "[1, \"a\"]"),
+                ("array", "[string(7), 2.5]"),
+            ];
+            const ARITH: &[&str] = &["+", "-", "*", "/", "%"];
+            const CMP: &[&str] = &["<", "<=", ">", ">=", "==", "!="];
+            const LOGIC: &[&str] = &["&&", "||"];
+            let mut pre = String::new();
+            let (lk, lv, rk, rv, op) = loop {
+                let (lk, lv) = *self.rng.pick(OPERANDS);
+                let (rk, rv) = *self.rng.pick(OPERANDS);
+                let group = self.rng.below(3);
+                let op = match group {
+                    0 => *self.rng.pick(ARITH),
+                    1 => *self.rng.pick(CMP),
+                    _ => *self.rng.pick(LOGIC),
+                };
+                let ill = match group {
+                    // arithmetic: different kinds, or a kind arithmetic is not defined on
+                    0 => lk != rk || matches!(lk, "bool" | "null" | "string" | "array"),
+                    // comparisons of different kinds (never two arrays: not implemented, DESIGN 4.3 item 6)
+                    1 => lk != rk && !(lk == "array" && rk == "array"),
+                    // logic on anything that is not two booleans
+                    _ => lk != "bool" || rk != "bool",
+                };
+                if ill {
+                    break (lk, lv, rk, rv, op);
+                }
+            };
+            let _ = (lk, rk);
+            let mut operand = |v: &str, pre: &mut String| -> String {
+                if v == "NULL" {
+                    if !pre.contains("nietp") {
+                        pre.push_str(&format!("functie nietp{}() {{ }}; ", n));
+                    }
+                    format!("nietp{}()", n)
+                } else {
+                    v.to_string()
+                }
+            };
+            let l = operand(lv, &mut pre);
+            let r = operand(rv, &mut pre);
+            self.planted = Some(format!("odd:{}", op));
+            return match self.rng.below(4) {
+                0 => format!("{}({} {} {});", pre, l, op, r),
+                1 => format!("{}functie nietf{n}(s) {{ (s {op} {r}) }}; nietf{n}({l});", pre, n = n, op = op, l = l, r = r),
+                2 => format!("{}functie nietf{n}(s) {{ ({l} {op} s) }}; nietf{n}({r});", pre, n = n, op = op, l = l, r = r),
+                _ => format!("{}stel nl{n} = {l}; (nl{n} {op} {r});", pre, n = n, op = op, l = l, r = r),
+            };
+        }
         let mut i = self.rng.usize(kinds.len());
         if kinds[i].0 == "compile:break" && self.lexical_loops > 0 {
             i = 0;
